@@ -105,6 +105,8 @@ def run(ctx):
     else:
         runs.append(("histories<=2", {"MaxLen": 2, "NSlices": 1, "Slice": 0}, None))
         runs.append(("histories=3", {"MaxLen": 3, "NSlices": 1, "Slice": 0, "FirstFromR2": "TRUE"}, "num=500"))
+    # nested structs, every history of <=3 path-lengthening rules (exhaustive): paths of four segments with sibling leaves
+    runs.append(("chains", {"MaxLen": 3, "NSlices": 1, "Slice": 0, "Chains": "TRUE", "FirstFromR2": "TRUE"}, None))
     runs.append(("no-option-builder", {"MaxLen": 1, "NSlices": 1, "Slice": 0, "WithMarker": "TRUE", "FirstFromR2": "TRUE"}, None))
     tot = {"steps": 0, "matched": 0, "traced": 0, "accepted": 0, "failed": 0, "inherited": 0, "skipped": 0, "rejected": 0,
            "yaml_runs": 0, "yaml_agree": 0, "modelfail": 0}
